@@ -6,6 +6,9 @@ props = [json.loads(l)["id"] for l in open(os.path.join(V, "properties.jsonl"))]
 
 TECH = "bounded symbolic execution of the go/ssa of the real functions -> SMT-LIB2 (z3 / cvc5 / cvc5 int-blasting portfolio), native replay of every counterexample"
 
+TECH_SCHED = TECH + "; for the concurrency harnesses the goroutine interleaving is part of the symbolic executor's decision vector (delay-bounded exploration at synchronisation operations) with a happens-before data-race detector, counterexample schedules steered natively through tagged events and confirmed with go test -race"
+SCHED = {"C06", "C13", "C16", "C17", "C20"}
+
 # id -> (category, level text, level note, design ref)
 CLAIMS = {}
 def claim(pid, text, note, ref, category="model_checking"):
@@ -30,7 +33,7 @@ for pid in props:
         "engine": "gosym",
         "level_claimed": {"category": cat, "text": text, "design_ref": ref},
         "level_note": note,
-        "technique": TECH,
+        "technique": TECH_SCHED if pid in SCHED else TECH,
     })
 na = []
 for pid in props:
